@@ -25,6 +25,7 @@ type Job struct {
 	Label     string   // human-readable instance (grammar id, variant set, ...)
 	Need      []string // reachability witnesses that must be hit on some path
 	MaxPaths  int
+	MaxSteps  int  // per-path step budget override (long inputs)
 	NoSamples bool // do not keep path samples for native validation
 	Meta      map[string]any
 }
@@ -159,6 +160,7 @@ func runJob(eng *symx.Engine, l *Loaded, j *Job) (jr *JobResult) {
 	} else {
 		eng.SetMaxPaths(0)
 	}
+	eng.SetMaxSteps(j.MaxSteps)
 	eng.SetValidate(!j.NoSamples)
 	jr.Res = eng.Explore(fn, args)
 	return
@@ -302,6 +304,10 @@ func (n *NativeRunner) Run(cases []ReplayCase, timeout time.Duration) ([]ReplayO
 		if len(outs) == 0 {
 			outs = append(outs, ReplayOutcome{Entry: cases[0].Entry, Failed: []string{"race-detector"}})
 		}
+		werr = nil
+	}
+	if n := len(outs); n > 0 && strings.HasPrefix(outs[n-1].Panic, "timed out") {
+		// the replay process stopped itself after reporting the case that hung
 		werr = nil
 	}
 	if werr != nil && len(outs) < len(cases) {
